@@ -470,7 +470,13 @@ async fn respawn_case(path: Respawn, hook: Hook, casedir: &Path, helper: &Path) 
 			});
 		}
 	}
-	let lines = || std::fs::read_to_string(casedir.join("dumps.jsonl")).map(|s| s.lines().map(str::to_string).collect::<Vec<_>>()).unwrap_or_default();
+	// complete lines only (the helper writes each line with one write(2); a trailing fragment
+	// would be a process killed mid-report and is not counted)
+	let lines = || {
+		std::fs::read_to_string(casedir.join("dumps.jsonl"))
+			.map(|s| s.split_inclusive('\n').filter(|l| l.ends_with('\n')).map(|l| l.trim_end().to_string()).collect::<Vec<_>>())
+			.unwrap_or_default()
+	};
 	let wait_lines = |n: usize| async move {
 		let t0 = std::time::Instant::now();
 		while lines().len() < n {
@@ -511,7 +517,7 @@ async fn respawn_case(path: Respawn, hook: Hook, casedir: &Path, helper: &Path) 
 	if hook != Hook::None {
 		let h = if hook == Hook::Sync { "hook-sync" } else { "hook-async" };
 		for (i, l) in all.iter().enumerate().take(2) {
-			let d: Value = serde_json::from_str(l).unwrap_or(Value::Null);
+			let d: Value = serde_json::from_str(l).map_err(|e| format!("unreadable helper report {l:?}: {e}"))?;
 			let cwd = bytes_of(&d["cwd"]).unwrap_or_default();
 			let want_cwd = std::fs::canonicalize(&wd).unwrap_or(wd.clone());
 			let which = if i == 0 { "first" } else { "replacement" };
